@@ -112,6 +112,47 @@ func (w *Workload) afterCrash(h *Host, call int64) bool {
 	return h.CrashStamp > call
 }
 
+// await waits for the next result of an accepted request. dragonboat expires requests by ticks:
+// a request with a deadline of d ticks must have a result once its replica has processed a few
+// times d ticks. If the replica's tick counter shows 4d+200 ticks and nothing arrived, the request
+// is reported as never answered (C12) and the caller goes on; if the ticks do not advance (host
+// closed under the request, starved machine) a wall-clock watchdog ends the wait without a verdict.
+func (w *Workload) await(h *Host, rs *dragonboat.RequestState, kind string) (dragonboat.RequestResult, bool) {
+	rep := uint64(0)
+	for id, hi := range w.Replicas {
+		if hi == h.Index {
+			rep = id
+		}
+	}
+	rtt := time.Duration(w.C.Opt.RTTMs) * time.Millisecond
+	bound := 4*int64(w.Timeout/rtt) + 200
+	t0 := w.C.Ticks(w.ShardID, rep)
+	wall := time.Now()
+	for {
+		select {
+		case r := <-rs.ResultC():
+			return r, true
+		case <-time.After(50 * time.Millisecond):
+		}
+		if rep != 0 && w.C.Ticks(w.ShardID, rep)-t0 > bound {
+			select {
+			case r := <-rs.ResultC():
+				return r, true
+			default:
+			}
+			w.C.Sink.Violation("C12", "no-terminal-result:"+kind,
+				fmt.Sprintf("%s request accepted on host %d with a deadline of %d ticks has no result after its replica processed %d ticks", kind, h.Index, int64(w.Timeout/rtt), w.C.Ticks(w.ShardID, rep)-t0),
+				map[string]interface{}{"host": h.Index, "kind": kind, "deadline_ticks": int64(w.Timeout / rtt)})
+			w.count("requests_never_answered", 1)
+			return dragonboat.RequestResult{}, false
+		}
+		if time.Since(wall) > 120*time.Second {
+			w.count("request_waits_ended_by_watchdog", 1)
+			return dragonboat.RequestResult{}, false
+		}
+	}
+}
+
 // Append proposes append(key, id) through host h.
 func (w *Workload) Append(h *Host, key byte, async bool, client int) {
 	nh := h.nodeHost()
@@ -130,13 +171,15 @@ func (w *Workload) Append(h *Host, key byte, async bool, client int) {
 		var rs *dragonboat.RequestState
 		rs, err = nh.Propose(nh.GetNoOPSession(w.ShardID), cmd, w.Timeout)
 		if err == nil {
-			r := <-rs.ResultC()
-			if r.Committed() && !r.Completed() {
+			r, got := w.await(h, rs, "propose")
+			if got && r.Committed() && !r.Completed() {
 				// NotifyCommit: the terminal result follows the commit notification
 				w.count("commit_notifications", 1)
-				r = <-rs.ResultC()
+				r, got = w.await(h, rs, "propose")
 			}
 			switch {
+			case !got:
+				err = dragonboat.ErrTimeout // outcome unknown
 			case r.Completed():
 				pos, data = r.GetResult().Value, r.GetResult().Data
 			case r.Rejected():
@@ -203,8 +246,10 @@ func (w *Workload) Read(h *Host, key byte, twoStep bool, client int) {
 		var rs *dragonboat.RequestState
 		rs, err = nh.ReadIndex(w.ShardID, w.Timeout)
 		if err == nil {
-			r := <-rs.ResultC()
+			r, got := w.await(h, rs, "readindex")
 			switch {
+			case !got:
+				err = dragonboat.ErrTimeout
 			case r.Completed():
 				v, err = nh.ReadLocalNode(rs, LookupQuery{Key: key})
 			case r.Dropped():
